@@ -297,6 +297,24 @@ func implEval(src string, env *Env) (out string) {
 	return "OK " + encResult(newValEnc(), v) + lg
 }
 
+// implEvalRoot evaluates src with root (any Go value) as the whole data
+func implEvalRoot(src string, root any) (out string) {
+	defer func() {
+		if x := recover(); x != nil {
+			out = fmt.Sprintf("PANIC %v", x)
+		}
+	}()
+	tree, err := exp.ParseCode(src)
+	if err != nil {
+		return "ERR parse"
+	}
+	v, err := exp.Evaluate(exp.NewPos(1, 1), tree, exp.NewScope(root))
+	if err != nil {
+		return "ERR " + errClass(err) + " LOG "
+	}
+	return "OK " + encResult(newValEnc(), v) + " LOG "
+}
+
 func encEnv(env *Env) string {
 	ve := newValEnc()
 	var parts []string
